@@ -275,14 +275,26 @@ def search(ctx, deep):
                   samples=[{'provider': cases[-1]['provider'], 'source': cases[-1]['source']}])
 
 
+_replayed = {}
+
 def replay(ctx, data):
     case = {'provider': data['provider'], 'source': data['source'], 'spec': data['spec']}
-    o = vlib.run_impl('c26_driver.py', {'cases': [case]}, timeout=300)['cases'][0]
+    k = (data['provider'], data['source'])
+    if k not in _replayed:
+        # the first call runs every stored replay of the known findings in one interpreter (one start-up instead of nine)
+        batch = [case]
+        for f in vlib.known_for(ID):
+            r = f.get('replay') or {}
+            if 'source' in r and (r['provider'], r['source']) != k:
+                batch.append({'provider': r['provider'], 'source': r['source'], 'spec': r['spec']})
+        res = vlib.run_impl('c26_driver.py', {'cases': batch}, timeout=300)['cases']
+        for c, o in zip(batch, res): _replayed[(c['provider'], c['source'])] = o
+    o = _replayed[k]
     want = data.get('key')
     js = gen.judge(case, o)
     if not js: return None
-    for k, w in js:
-        if want is None or k == want: return Failure(k, w, data)
+    for key, w in js:
+        if want is None or key == want: return Failure(key, w, data)
     return None
 
 
